@@ -11,10 +11,10 @@ CHECKS = {
 }
 NOT_YET = {}
 CHECKS["C11"] = ("exploration", "runtime monitoring: lone-instance replay monitor (trace of each instance in a group vs the projected script on a fresh lone instance) + Go race detector on a concurrent variant",
-  "PRNG groups of 2-5 unlinked instances (same or different compiled modules, one runtime or two sharing a compilation cache, both engines) run an interleaved script; a monitor compares each instance's canonical trace (results, traps, host log, memory/global/table digests incl. dropped-segment effects) with the trace of the projected script on a lone instance; one goroutine per instance under the race detector. Held on the groups explored only.",
-  "the harness's host functions keep per-instance state; WASI descriptors/stdio isolation is covered only as far as generated programs reach it (not at all in this driver)", "§3 C11")
+  "PRNG groups of 2-5 unlinked instances (same or different compiled modules, one runtime or two sharing a compilation cache, both engines) run an interleaved script; a monitor compares each instance's canonical trace (results, traps, host log, memory/global/table digests incl. dropped-segment effects) with the trace of the projected script on a lone instance; half of the groups with capacity-from-max memories and with dirtied, closed predecessor instances; a WASI part (own or default-config descriptors, stdio, random/clock sources, directory listings per instance, shared base ModuleConfig) and a providers part (one compiled guest linked to different providers under one name) use the same lone-replay oracle; one goroutine per instance under the race detector. Held on the groups explored only.",
+  "the harness's host functions keep per-instance state; Emscripten host modules are not driven", "§3 C11")
 CHECKS["C12"] = ("exploration", "runtime monitoring: differential trace monitor over the configuration lattice (base point vs every point), separate processes for warm disk cache",
-  "Full lattice of 768 configuration points (8 cache modes incl. warm directory from another process and shared-cache orders with closes, capacity-from-max, guard-page allocator, debug info, custom sections, close-on-context-done, 3 listener sets, 2 engines) for a few programs plus thousands of PRNG (program, point) pairs; the guest's canonical trace at the point must equal the base trace. Held on the pairs explored only.",
+  "Full lattice of 768 configuration points (8 cache modes incl. warm directory from another process and shared-cache orders with closes, capacity-from-max, guard-page allocator, debug info, custom sections, close-on-context-done, 3 listener sets, 2 engines) for a few programs plus thousands of PRNG (program, point) pairs; the guest's canonical trace at the point must equal the base trace; directed programs at every in-process point: deep proper-tail-call rings, register-pressure kernels, cross-module call chains with listener subsets, linked modules (link decisions around the exporter's current size and maximum). Held on the pairs explored only.",
   "error text is not compared (only class); listener callbacks are C20's business; core features and memory limit are semantic and fixed", "§3 C12")
 CHECKS["C08"] = ("exploration", "runtime monitoring: echo-protocol monitors at the host/guest boundary (host-side recorder + in-wasm judge + Go-side comparison), race detector/checkptr on a sample",
   "For thousands of host-function signatures (all up to arity 3x2 exhaustively over the numeric types, a covering set with every type at every position 0-13 crossing the amd64 register cliffs, PRNG ones) x 8 definition styles x Call/CallWithStack x re-entry, known values are sent through; the host function checks what it received, the guest judges results in wasm against baked constants (bit masks), Go checks what comes back; both engines. Held on the signatures and value vectors explored only.",
@@ -47,7 +47,7 @@ CHECKS["C07"] = ("exploration", "runtime monitoring: tick-counting monitor (logi
   "Every way to form a cycle that the design lists (loop back-edge forms, nested loops, call/call_indirect/return_call/return_call_indirect rings incl. cross-module and through host functions, start functions, host callbacks) x {cancel, deadline, close from another goroutine, inline close} x moment of the cause, both engines. The host tick function observes IsClosed(); after it is observed at most ticks-per-iteration+1 further ticks may happen; the call must return the documented ExitError and the module be closed. Tick-less variants are judged against a control that is known to stop (CPU-time based, else inconclusive). Held on the shapes enumerated only.",
   "bounded-progress restatement of 'promptly'; a watchdog firing without a finished control is inconclusive", "§3 C07")
 CHECKS["C09"] = ("exploration", "runtime monitoring + sanitizers: twin/invariance oracle over close/GC histories run under GODEBUG=clobberfree=1, default GC and efence=1 (Go heap sanitizers), /proc/self/maps census, race detector sample",
-  "PRNG histories over small module graphs (instantiate, call, pass funcrefs through tables/globals/table.grow, close module/compiled module/runtime/cache, drop references, forced GC with finalizer drain, churn, closes while calls are outstanding) run in four children: a twin where closes are no-ops and three real runs under different heap-sanitizer modes. Observations on live instances must equal the twin's or be an ordinary closed-module error and be identical across sanitizer modes; a child death is a violation. Held on the histories explored only.",
+  "PRNG histories over small module graphs (instantiate, call, pass funcrefs through tables/globals/table.grow, close module/compiled module/runtime/cache, drop references, forced GC with finalizer drain, churn, closes while calls are outstanding, concurrent instantiations, disk/shared caches, private memories, a tracking experimental.MemoryAllocator that records every Free) run in four children: a twin where closes are no-ops and three real runs under different heap-sanitizer modes. Observations on live instances must equal the twin's or be an ordinary closed-module error and be identical across sanitizer modes; a child death is a violation. Held on the histories explored only.",
   "reads of freed Go memory are only visible when they change behaviour under clobberfree/efence or crash", "§3 C09")
 CHECKS["C13"] = ("fault_enumeration", "runtime monitoring with fault injection: crash points (SIGKILL at every hook point of fileCache.Add and after k copied bytes, -tags verif hooks), truncation sweep, version skew with a second binary flavour, concurrent writers; directory monitor + next-process oracle",
   "For ~50 modules every one of the 5 named crash points plus death after k bytes of the copy is enumerated; after each crash a directory monitor requires every file under a final key name to be byte-identical to the complete reference entry, and a fresh process using that directory must error or behave exactly like a fresh compile (leftover temp files are poisoned so reading one would kill it). Every truncation length of an entry (exhaustive for small entries), emulated and real foreign-version entries, byte determinism across processes/orders and 8 concurrent writers with a polling reader. Single-byte corruptions are information only.",
@@ -62,7 +62,7 @@ CHECKS["C18"] = ("exploration", "runtime monitoring: byte-exact trace comparison
   "PRNG scripts over all 46 WASI functions run under an untouched NewModuleConfig in >=6 processes with different environments (one under -race), 6 instances each (both engines, later instances created after earlier ones consumed clock/random values); traces (errno, every output region, changed bytes, memory digest) must be identical; every planted canary, host name, cwd, pid and current time encodings are searched in what calls wrote; direct assertions for args/environ/preopens/stdio; a differential watchdog shows no call really sleeps. Held on the scripts explored only.",
   "time scan restricted to clock/filestat/random outputs with a stated chance-hit rule", "§3 C18")
 CHECKS["C20"] = ("exploration", "runtime monitoring: online bracket automaton + shadow stack inside a recording listener factory, iterator-vs-shadow-stack check, params/results vs harness-known values and host-call log, cross-engine stream comparison",
-  "Call-heavy generated programs (direct, indirect, imported host functions, re-entrant host callbacks, start functions, traps unwinding many frames, tail calls) x listener sets {all, subset} x both engines: every Before needs exactly one later After/Abort properly nested (per api.Function.Call activation), the stack iterator must list the call chain from the callee outward, top-level params/results and host-function params/results must be the actual ones, event streams must be equal across engines (non-tail-call programs) and the guest trace equal with and without listeners; two runtimes sharing a cache must each get only their own events. Held on the programs explored only.",
+  "Call-heavy generated programs (direct, indirect, imported host functions, re-entrant host callbacks, start functions, traps unwinding many frames, tail calls) x listener sets {all, subset} x both engines: every Before needs exactly one later After/Abort properly nested (per api.Function.Call activation), the stack iterator must list the call chain from the callee outward, top-level params/results and host-function params/results must be the actual ones, event streams must be equal across engines (non-tail-call programs) and the guest trace equal with and without listeners; two runtimes sharing a cache must each get only their own events, and one binary compiled twice through one cache with listener subsets differing in one function must produce the stream of that subset compiled alone; a hand-built cross-module scenario (2-3 wasm modules + host module, one listener object per definition, exact event model) covers delivery to the right listener. Held on the programs explored only.",
   "tail-call depth is implementation-defined: streams of programs executing tail calls are not compared across engines; iterator compared up to 48 frames", "§3 C20")
 CHECKS["C01"] = ("exploration", "runtime monitoring: differential trace monitor (interpreter vs compiler) over generated programs in supervised children",
   "By-construction-valid generated programs (all enabled features, NaN-canonicalised, fuel-terminated) with PRNG call scripts are run on both engines; a monitor compares canonical traces (result bits, trap kind, host-call log, memory/global/table digests after every step) event by event; crashes and internal errors are violations, stack exhaustion is inconclusive. Held on the programs explored only.",
